@@ -1,6 +1,6 @@
 """Per-property checks: which drivers and bounded models decide which property, verdict collection,
 known findings, evidence, replay."""
-import json, os, random, subprocess, sys, time, hashlib, shutil
+import json, os, random, re, subprocess, sys, time, hashlib, shutil
 from . import run, gen
 from .run import log, ToolError
 
@@ -27,6 +27,12 @@ def load_keys(seed=1):
     gen.set_keys(k)
     gen.set_pool([n for n in extra if n in k])
     return k
+
+
+def static_check_names(pid):
+    """names of the checks Trace.tla has for a property (Chk("Cxx", "name" ...); names built with \\o are prefixes)"""
+    src = open(os.path.join(run.SPEC, "Trace.tla")).read()
+    return sorted(set(re.findall(r'Chk\("%s",\s*"([^"]+)"' % pid, src)))
 
 
 def sany_all():
@@ -259,6 +265,8 @@ def run_check(pid, tier, seed, keep=False):
     if others:
         log("checks of other properties that failed on these traces (reported by their own checks): %s"
             % ", ".join("%s/%s x%d" % (p, c, n) for (p, c), n in sorted(others.items())[:12]))
+    own_counts = {k.split("/", 1)[1]: v for k, v in sorted(run.CHECK_COUNTS.items()) if k.startswith(pid + "/")}
+    never = [n for n in static_check_names(pid) if not any(k == n or k.startswith(n) for k in own_counts)]
     st = {"states": sum(m["states"] for m in model_stats) + nev + 1, "transitions": sum(m["transitions"] for m in model_stats) + nev}
     evid = {
         "property_id": pid, "tier": tier, "seed": seed, "level": "model_checking",
@@ -268,6 +276,10 @@ def run_check(pid, tier, seed, keep=False):
             "events_validated": nev,
             "bounded_models": [{k: m[k] for k in ("name", "states", "transitions", "wall_s", "constants") if k in m} for m in model_stats],
             "drivers": per_driver,
+            # vacuity accounting: in how many of the validated events TLC evaluated each check of this property, and
+            # which checks the trace specification has for it that this run never reached
+            "checks_evaluated": own_counts,
+            "checks_never_evaluated": never,
             "checker_cmd": "tlc -workers 1 -config Trace.cfg Trace.tla (TRACE=<chunk>); bounded models: tlc -config MC_*.cfg",
             "trusted_base": ["TLC 1.8.0 + CommunityModules Json/IOUtils", "harness recorder (copies public API results)",
                              "k256 / libsecp256k1 / ed25519-dalek as mathematics", "own keccak-f (self-checked on EIP-778 vector)"],
